@@ -169,5 +169,15 @@ PROPS = {
         "assumptions": ["words.len() == ceil(len/64) and len <= u32::MAX (asserted by every constructor)",
                         "build_bp_index establishes the rank-directory invariant (assumed; bounded support only)"],
     },
+    "C21": {
+        "level": "other",
+        "explanation": "bounded: Kani executes the real scalar index builder and the real row/field iterators, DsvRow::get and row(n) on "
+                       "every text of length 4 over {delimiter, quote, newline, 'a'} for every configuration with distinct special bytes and "
+                       "compares with the quote-aware split the property defines; texts ending in an unquoted delimiter are the recorded "
+                       "finding F1 and are checked by a separate obligation that is expected to fail. The marker/newline rank-select layer "
+                       "is the index_lightweight code (same shapes as C07, not separately proved here).",
+        "trusted_base": COMMON_TRUST,
+        "assumptions": ["texts of length 4 (3 for the known-finding obligation); index built by the scalar builder (C20 relates the SIMD builders to it)"],
+    },
 }
 FIX_COMMITS = ["2cec8d3"]
